@@ -106,6 +106,7 @@ type checker struct {
 	nViol   int
 	broken  bool
 	notes   []string
+	kfPrinted map[string]bool
 }
 
 func (c *checker) knownIDs(domain string) string {
@@ -185,13 +186,14 @@ func (c *checker) runBatch(bin string, domain string, N int, extraEnv []string) 
 		go func(w int) {
 			defer wg.Done()
 			from := w
+			var skips []string
 			for attempt := 0; attempt < 8 && from < N; attempt++ {
 				out := filepath.Join(c.workDir, fmt.Sprintf("%s-w%d-a%d.json", domain, w, attempt))
 				jr := filepath.Join(c.workDir, fmt.Sprintf("%s-w%d-a%d.journal", domain, w, attempt))
 				os.Remove(out)
 				os.Remove(jr)
 				cmd := exec.Command(bin, "worker", "-prop", c.prop, "-seed", fmt.Sprint(c.seed), "-from", fmt.Sprint(from), "-to", fmt.Sprint(N),
-					"-stride", fmt.Sprint(W), "-tier", c.tier, "-domain", domain, "-known", c.knownIDs(domain), "-out", out, "-journal", jr, "-deadline", fmt.Sprint(deadline))
+					"-stride", fmt.Sprint(W), "-tier", c.tier, "-domain", domain, "-known", c.knownIDs(domain), "-out", out, "-journal", jr, "-deadline", fmt.Sprint(deadline), "-skip", strings.Join(skips, ","))
 				cmd.Env = append(append(os.Environ(), "GOMAXPROCS=1"), extraEnv...)
 				var stderr bytes.Buffer
 				cmd.Stderr = &stderr
@@ -249,8 +251,13 @@ func (c *checker) runBatch(bin string, domain string, N int, extraEnv []string) 
 					return
 				}
 				br.crashes = append(br.crashes, crashRec{run: crashed, stderr: tail(stderr.String(), 4000)})
+				// keep what the worker had flushed; resume from its flush point, skipping the killer
+				skips = append(skips, fmt.Sprint(crashed))
+				if ok {
+					c.merge(br, &wo)
+					from = wo.NextRun
+				}
 				mu.Unlock()
-				from = crashed + W
 			}
 		}(w)
 	}
@@ -367,6 +374,12 @@ func (c *checker) crashViolation(tr *Trace, cv *childVerdict) *Violation {
 		if or&opOracle(s.Op) != 0 || (isSeqOp(s.Op) && or&oAbandon != 0) {
 			mine = true
 		}
+	}
+	if !strings.Contains(cv.stderr, "Clement-Jean/go-art") && !strings.Contains(cv.stderr, "/repo/") && !c.cfg.crashIsMine {
+		// no library frame in the crash: the harness itself is at fault
+		c.broken = true
+		c.notes = append(c.notes, "harness crash (no library frame on the stack): "+tail(cv.stderr, 1500))
+		return nil
 	}
 	if !mine {
 		return nil
@@ -492,7 +505,7 @@ func dropTree(t *Trace, ti int) *Trace {
 func simplifyStep(t *Trace, i int) []*Trace {
 	var out []*Trace
 	s := t.Steps[i]
-	if s.T < 0 {
+	if s.T < 0 || s.T >= len(t.Trees) {
 		return nil
 	}
 	kind := t.Trees[s.T].Key.Kind
@@ -702,8 +715,12 @@ func (c *checker) handleViolations(bin string, br *batchResult, extraEnv []strin
 			kfID = br.domain
 		}
 		if kfID != "" && c.kfListed(kfID) != nil {
-			c.lines = append(c.lines, fmt.Sprintf("KNOWN-FINDING: property=%s id=%s %s (this run: %s; replay=%s)", c.prop, kfID, c.kfListed(kfID).Text, final.Detail, rp))
-			os.Remove(rp)
+			if !c.kfPrinted[kfID] {
+				c.lines = append(c.lines, fmt.Sprintf("KNOWN-FINDING: property=%s id=%s %s (this run: %s; replay=%s)", c.prop, kfID, c.kfListed(kfID).Text, final.Detail, rp))
+				c.kfPrinted[kfID] = true
+			} else {
+				os.Remove(rp)
+			}
 			continue
 		}
 		c.nViol++
@@ -833,7 +850,7 @@ func checkMain(args []string) int {
 		return 2
 	}
 	self, _ := os.Executable()
-	c := &checker{prop: prop, cfg: cfg, self: self, start: time.Now(), known: loadKnownFindings()}
+	c := &checker{prop: prop, cfg: cfg, self: self, start: time.Now(), known: loadKnownFindings(), kfPrinted: map[string]bool{}}
 	c.seed = envU64("VERIF_SEED", 1)
 	c.workers = envInt("VERIF_WORKERS", runtime.NumCPU())
 	c.workDir = filepath.Join(rootDir, ".build", "run-"+prop)
@@ -867,10 +884,8 @@ func checkMain(args []string) int {
 	var cov map[string]any
 	var evals, nontriv int
 	switch cfg.engine {
-	case "world":
+	case "world", "node":
 		cov, evals, nontriv = c.worldCheck()
-	case "node":
-		cov, evals, nontriv = c.nodeCheck()
 	case "heap":
 		cov, evals, nontriv = c.heapCheck()
 	case "race":
@@ -934,8 +949,6 @@ func (c *checker) replay(path string) int {
 		return 2
 	}
 	switch c.cfg.engine {
-	case "node":
-		return c.nodeReplay(path)
 	case "heap":
 		return c.heapReplay(path)
 	case "race":
